@@ -273,5 +273,19 @@ def run_case(ctx, k, rng):
             dv = list(death_vector([bars] + dgms[1:], 0))
             ok = all(dv[i] >= dv[i + 1] for i in range(len(dv) - 1)) and sorted(dv) == sorted(bars0[:, 1].tolist())
             ctx.check("death vector non-increasing permutation of deaths", ok, got=dv)
+            # the same on integer dtypes (grey levels, step numbers): deaths of 0 and values at the ends of the dtype's range
+            ib, fb, dn = vforms.near_limit_int_diagram(rng, int(rng.integers(2, 8)), dtypes=(np.uint8, np.uint16, np.int8, np.int16, np.uint32),
+                                                       positive_length=False)
+            if rng.random() < 0.6:
+                j = int(rng.integers(0, len(ib)))
+                lo_ = np.iinfo(ib.dtype).min
+                ib[j] = [lo_, lo_] if rng.random() < 0.5 else [ib[j, 0], ib[j, 0]]
+                if ib.dtype.kind == "u":
+                    ib[j] = [0, 0]
+                fb = ib.astype(float)
+            ctx.ran()
+            dvi = [float(x) for x in death_vector([ib], 0)]
+            ctx.check("death vector non-increasing permutation of deaths", all(dvi[i] >= dvi[i + 1] for i in range(len(dvi) - 1)) and
+                      sorted(dvi) == sorted(fb[:, 1].tolist()), got=dvi, dtype=dn, deaths=fb[:, 1].tolist())
         except Exception as e:
             ctx.exception("death vector returns", e)
